@@ -20,6 +20,17 @@ def parse(out):
     return evs, slots
 
 
+def waker_counts(out):
+    """the trailer [16; count of waker 0..15]"""
+    n = out[0]
+    p = 1 + 3 * n
+    ns = out[p]
+    q = p + 1 + 7 * ns
+    if len(out) >= q + 17 and out[q] == 16:
+        return out[q + 1:q + 17]
+    return None
+
+
 def steps_of(case):
     n = case[3]
     return [tuple(case[4 + 3 * i: 7 + 3 * i]) for i in range(n)]
